@@ -792,6 +792,46 @@ fn delivered_by_log(d: &[OpId]) -> BTreeMap<(usize, usize), Vec<u32>> {
     out
 }
 
+
+/// The properties evaluated directly on what the two real sessions did (after they ran as far as
+/// they can): C21 (deadlock class / spin), C20 (grammar, stray message), C19 (exact delivery).
+fn direct_checks(run: &Run, cfg: &Config, mutated: bool, crashed: bool, out: &mut Outcome, case: &Value) {
+    let stuck = (0..2).any(|p| run.active(p));
+    if stuck {
+        out.count("deadlocks");
+        let sig = deadlock_signature(run);
+        out.violation("C21", &sig, format!("sessions never complete: cap {} ; A waits in {}, B waits in {}",
+            cfg.cap, run.blocked_where(0), run.blocked_where(1)), case.clone());
+    }
+    let sh = run.sh.lock().unwrap();
+    for p in 0..2 {
+        if sh.spin[p] {
+            out.count("spins");
+            out.violation("C21", "spin:sync-loop-after-stream-closure",
+                format!("peer {}: the Sync loop polled the closed stream {SPIN_LIMIT} times without awaiting (busy spin, never returns)", PEERS[p]), case.clone());
+        }
+        if let Some(g) = grammar_violation(&sh.sent[p], run.fin[p] == Some(Fin::Ok)) {
+            out.violation("C20", &format!("c20:{g}"), format!("peer {} wrote {:?}", PEERS[p], sh.sent[p]), case.clone());
+        }
+    }
+    if run.fin[0] == Some(Fin::Ok) && run.fin[1] == Some(Fin::Ok) {
+        out.count("completed");
+        if sh.chan.iter().any(|c| !c.is_empty()) {
+            out.violation("C20", "c20:stray-message-after-end",
+                format!("messages left in the transport after both sessions ended: {} / {}", sh.chan[0].len(), sh.chan[1].len()), case.clone());
+        }
+        if !mutated && !crashed {
+            for p in 0..2 {
+                let want = expected_delivery(cfg, p);
+                let got = delivered_by_log(&sh.delivered[p]);
+                if want != got {
+                    out.violation("C19", "c19:delivery-differs", format!("peer {} was given {got:?}, must be given {want:?}", PEERS[p]), case.clone());
+                }
+            }
+        }
+    }
+}
+
 // ------------------------------------------------------------------------------------------
 // replay
 // ------------------------------------------------------------------------------------------
@@ -897,6 +937,9 @@ async fn replay_one(ctx: &ReplayCtx, beh: &Value, out: &mut Outcome) -> ReplayEn
     macro_rules! mismatch {
         ($sig:expr, $detail:expr) => {{
             out.violation(prop, $sig, $detail, beh.clone());
+            // let the real sessions run on and evaluate the properties on what they did
+            run.free_run().await;
+            direct_checks(&run, &cfg, mutated, crashed, out, beh);
             return ReplayEnd::Done;
         }};
     }
@@ -977,10 +1020,6 @@ async fn replay_one(ctx: &ReplayCtx, beh: &Value, out: &mut Outcome) -> ReplayEn
             if !ok {
                 mismatch!(&format!("mismatch:{act}"), format!("{at}: specification reaches {expect_pc}, `run` returned {fin:?} (spin detected: {spin})"));
             }
-            if spin {
-                out.violation("C21", "spin:sync-loop-after-stream-closure",
-                    format!("{at}: the Sync loop polled the closed stream {SPIN_LIMIT} times without awaiting (busy spin, never returns)"), beh.clone());
-            }
         } else if end.finished {
             // `run` may return right after this event if the specification's next step of p is the
             // unobservable last one (SyncElse / SinkFail have no await of their own)
@@ -1021,38 +1060,14 @@ async fn replay_one(ctx: &ReplayCtx, beh: &Value, out: &mut Outcome) -> ReplayEn
         mismatch!("mismatch:final", format!("specification stuck={} real stuck={stuck}", fin["stuck"]));
     }
     if stuck {
-        out.count("deadlocks");
         let sig = deadlock_signature(&run);
         let spec_sig = if fin["burst"] == true { "deadlock:both-peers-in-SendBurst" }
             else if fin["handshake"] == true { "deadlock:cap0-both-peers-in-SendHave" } else { "deadlock:other" };
         if !sig.starts_with(spec_sig) {
             mismatch!("mismatch:final", format!("deadlock class differs: specification {spec_sig}, real sessions {sig}"));
         }
-        out.violation("C21", &sig, format!("sessions never complete: cap {} ; A waits in {}, B waits in {}",
-            cfg.cap, run.blocked_where(0), run.blocked_where(1)), beh.clone());
     }
-    // direct evaluation of the properties on the real observations
-    let sh = run.sh.lock().unwrap();
-    for p in 0..2 {
-        if let Some(g) = grammar_violation(&sh.sent[p], run.fin[p] == Some(Fin::Ok)) {
-            out.violation("C20", &format!("c20:{g}"), format!("peer {} wrote {:?}", PEERS[p], sh.sent[p]), beh.clone());
-        }
-    }
-    if run.fin[0] == Some(Fin::Ok) && run.fin[1] == Some(Fin::Ok) {
-        out.count("completed");
-        if sh.chan.iter().any(|c| !c.is_empty()) {
-            out.violation("C20", "c20:stray-message-after-end", format!("messages left in the transport after both sessions ended: {} / {}", sh.chan[0].len(), sh.chan[1].len()), beh.clone());
-        }
-        if !mutated && !crashed {
-            for p in 0..2 {
-                let want = expected_delivery(&cfg, p);
-                let got = delivered_by_log(&sh.delivered[p]);
-                if want != got {
-                    out.violation("C19", "c19:delivery-differs", format!("peer {} was given {got:?}, must be given {want:?}", PEERS[p]), beh.clone());
-                }
-            }
-        }
-    }
+    direct_checks(&run, &cfg, mutated, crashed, out, beh);
     ReplayEnd::Done
 }
 
@@ -1201,17 +1216,27 @@ async fn record_one(
             break;
         }
         // concurrent store change
-        if muts_left > 0 && rng.chance(1, 6) {
-            let p = rng.below(2) as usize;
-            let keys: Vec<(usize, usize)> = cfg.slogs[p].clone();
+        let mp = rng.below(2) as usize;
+        // the window between the Have message and the size queries is short: prefer it
+        let early = run.sh.lock().unwrap().sent[mp].len() == 1;
+        if muts_left > 0 && rng.chance(if early { 3 } else { 1 }, 6) {
+            let p = mp;
+            let mut keys: Vec<(usize, usize)> = cfg.slogs[p].clone();
+            if early || rng.chance(1, 2) {
+                // logs this replica has data of
+                let with_rows: Vec<(usize, usize)> = keys.iter().copied().filter(|k| now[p].get(k).map(|r| !r.is_empty()).unwrap_or(false)).collect();
+                if !with_rows.is_empty() {
+                    keys = with_rows;
+                }
+            }
             if run.active(p) && !keys.is_empty() {
                 let (a, l) = *rng.pick(&keys);
                 let rows = now[p].get(&(a, l)).cloned().unwrap_or_default();
                 let choice = rng.below(3);
-                let m: Option<(&str, u32)> = if choice == 0 && !rows.is_empty() {
-                    // prune below a point, sometimes the whole log
+                let m: Option<(&str, u32)> = if (choice == 0 || (early && choice == 2)) && !rows.is_empty() {
+                    // prune below a point, often the whole log
                     let top = *rows.iter().max().unwrap();
-                    let n = if rng.chance(1, 3) { top + 1 } else { rng.range(1, top as u64 + 1) as u32 };
+                    let n = if rng.chance(1, 2) { top + 1 } else { rng.range(1, top as u64 + 1) as u32 };
                     Some(("prune", n))
                 } else if choice == 1 && !rows.is_empty() {
                     Some(("delete", *rng.pick(&rows)))
@@ -1259,39 +1284,11 @@ async fn record_one(
     }
     if stuck {
         run.push(json!({"ev": "Stuck"}));
-        out.count("deadlocks");
-        let sig = deadlock_signature(&run);
-        out.violation("C21", &sig, format!("sessions never complete: cap {} ; A waits in {}, B waits in {}",
-            cfg.cap, run.blocked_where(0), run.blocked_where(1)),
-            json!({"cap": cfg.cap, "storeA": store_json(&cfg.content[0]), "storeB": store_json(&cfg.content[1])}));
     }
-    let sh = run.sh.lock().unwrap();
     let case = json!({"cap": cfg.cap, "storeA": store_json(&cfg.content[0]), "storeB": store_json(&cfg.content[1]),
-                      "logsA": keys_json(&cfg.slogs[0]), "logsB": keys_json(&cfg.slogs[1]), "events": sh.log.len()});
-    for p in 0..2 {
-        if sh.spin[p] {
-            out.violation("C21", "spin:sync-loop-after-stream-closure",
-                format!("peer {}: the Sync loop polled the closed stream {SPIN_LIMIT} times without awaiting (busy spin, never returns)", PEERS[p]), case.clone());
-        }
-        if let Some(g) = grammar_violation(&sh.sent[p], run.fin[p] == Some(Fin::Ok)) {
-            out.violation("C20", &format!("c20:{g}"), format!("peer {} wrote {:?}", PEERS[p], sh.sent[p]), case.clone());
-        }
-    }
-    if run.fin[0] == Some(Fin::Ok) && run.fin[1] == Some(Fin::Ok) {
-        out.count("completed");
-        if sh.chan.iter().any(|c| !c.is_empty()) {
-            out.violation("C20", "c20:stray-message-after-end", "messages left in the transport after both sessions ended".into(), case.clone());
-        }
-        if !mutated && !crashed {
-            for p in 0..2 {
-                let want = expected_delivery(cfg, p);
-                let got = delivered_by_log(&sh.delivered[p]);
-                if want != got {
-                    out.violation("C19", "c19:delivery-differs", format!("peer {} was given {got:?}, must be given {want:?}", PEERS[p]), case.clone());
-                }
-            }
-        }
-    }
+                      "logsA": keys_json(&cfg.slogs[0]), "logsB": keys_json(&cfg.slogs[1])});
+    direct_checks(&run, cfg, mutated, crashed, out, &case);
+    let sh = run.sh.lock().unwrap();
     let recv_during_burst = sh.log.iter().filter(|e| e["ev"] == "Recv").count();
     out.count_by("recv_events", recv_during_burst as u64);
     out.mark_distinct(format!("{}|{}|{}", cfg.cap, store_json(&cfg.content[0]), store_json(&cfg.content[1])));
